@@ -577,6 +577,16 @@ macro_rules! for_matrix {
     };
 }
 
+/// very wide types (2080 and 8192 bits): a handful of events per property, because every event costs the
+/// specification a few hundred milliseconds at these sizes
+#[macro_export]
+macro_rules! for_giants {
+    ($mac:ident) => {
+        $mac!(2080; (BUintD8<260>, BIntD8<260>), (BUintD16<130>, BIntD16<130>), (BUintD32<65>, BIntD32<65>));
+        $mac!(8192; (BUintD8<1024>, BIntD8<1024>), (BUint<128>, BInt<128>));
+    };
+}
+
 /// the primitive integers, used to calibrate the specification (a disagreement there is a
 /// specification error, never a violation)
 #[macro_export]
